@@ -131,6 +131,28 @@ def run(ctx):
         n_obj = len(list(discr_switches(cb, objty)))
         ctx.ob("V3", k + "|never for Text objects", n_obj >= 1 and not bad, t["sp"], "the Text arm of the object-type test cannot reach the record" if n_obj >= 1 and not bad else
                "characters of a text object (Put(Str) ops) can be recorded for conversion (object type tests: %d)" % n_obj)
+    # every visible string is recorded: the record depends on nothing but the op's kind, the value's kind, the object's type, the key
+    # kind / list position lookup and the two loops' own iterators
+    from .C28 import control_switches
+    ALLOWED_TY = ("automerge::op_set2::types::OpType", "automerge::op_set2::types::ScalarValue", "automerge::types::ObjType", "automerge::op_set2::types::KeyRef", "core::option::Option")
+    for k, (bi, t) in util.ordinal_keys(pushes, lambda it: "convert|record"):
+        bad = []
+        for sb, sw in control_switches(cb, bi):
+            src = cb.bool_operand_source(sw["op"])
+            if src and src["kind"] == "discr" and util.base_ty(src.get("ty") or "") in ALLOWED_TY:
+                if util.base_ty(src.get("ty") or "") != "core::option::Option":
+                    continue
+                d = cb.single_def(src["origin"][0])
+                if d and d[1] == "t" and ((norm_fn(d[2].get("fn")) or "").endswith("Iterator::next") or (callee(d[2]) or "").endswith("OpSet::seek_list_opid")):
+                    continue
+            bad.append(util.where(cb, sb))
+        ctx.ob("V3", k + "|every visible string is recorded", not bad, t["sp"], "depends only on the op / value / object kind, the position lookup and the loops" if not bad else
+               "recording a visible string is skipped under a further condition (%s): that string stays a scalar, or a conflicting value is dropped from the migration" % bad)
+    # the migration sees the whole document: nothing is applied after it
+    for k, (bi, t) in util.ordinal_keys(calls, lambda it: "load|convert call"):
+        later = [tt["sp"] for ab_, tt in lb.calls() if (callee(tt) or "").endswith(("Automerge::apply_changes", "Automerge::apply_changes_log_patches", "Automerge::load_incremental", "BatchApply::apply")) and lb.can_reach(bi, ab_) and ab_ != bi]
+        ctx.ob("V2", k + "|runs after every chunk was applied", not later, t["sp"], "no change is applied after the migration" if not later else
+               "changes are applied (%s) after the migration ran: strings they contain stay scalars, and positions recorded for the conversion may be stale" % later[0])
     # ---------------- V4: rewrite
     puts = [(bi, t) for bi, t in cb.calls() if (callee(t) or "").endswith("::put_object")]
     spl = [(bi, t) for bi, t in cb.calls() if (callee(t) or "").endswith("::splice_text")]
